@@ -39,13 +39,15 @@ class Res:
         return self.out.decode('latin-1') if isinstance(self.out, bytes) else self.out
 
 
-def run(cmd, cwd=None, env=None, timeout=60, stdin=None, merge=False, norand=True):
+def run(cmd, cwd=None, env=None, timeout=60, stdin=None, merge=False, norand=True, mem_mb=None):
     """Run a process in its own group with a scrubbed environment; returns Res (bytes)."""
     e = dict(CLEAN_ENV)
     if env:
         e.update(env)
     if norand:
         cmd = ['setarch', 'x86_64', '-R'] + list(cmd)
+    if mem_mb:
+        cmd = ['prlimit', '--as=%d' % (mem_mb << 20)] + list(cmd)
     try:
         p = subprocess.Popen(cmd, cwd=cwd, env=e, stdin=subprocess.PIPE if stdin is not None else subprocess.DEVNULL,
                              stdout=subprocess.PIPE, stderr=subprocess.STDOUT if merge else subprocess.PIPE,
